@@ -353,7 +353,8 @@ class Run:
         os.makedirs(EVID, exist_ok=True)
         with open(os.path.join(EVID, self.prop + ".json"), "w", encoding="utf-8") as fh:
             json.dump(ev, fh, ensure_ascii=False, indent=1, default=str)
-        for f in violations[:8]:
+        # what has a concrete failing input comes first
+        for f in sorted(violations, key=lambda f_: f_.witness is None)[:8]:
             print("  - [%s] %s" % (f.kind, f.what))
             if f.witness is not None:
                 print("      witness: %s" % json.dumps(f.witness, ensure_ascii=False, default=str)[:400])
